@@ -462,18 +462,26 @@ namespace ST
         char out_buffer[64];
         int format_size = snprintf(out_buffer, sizeof(out_buffer), format_buffer, value);
         ST_ASSERT(format_size > 0, "Your libc doesn't support reporting format size");
-        ST_ASSERT(static_cast<size_t>(format_size) < sizeof(out_buffer), "Format buffer too small");
+
+        const char *out_text = out_buffer;
+        ST::char_buffer big_buffer;
+        if (static_cast<size_t>(format_size) >= sizeof(out_buffer)) {
+            // Too long for the stack buffer (e.g. 1e100 with {f}); render it again on the heap
+            big_buffer.allocate(format_size);
+            snprintf(big_buffer.data(), static_cast<size_t>(format_size) + 1, format_buffer, value);
+            out_text = big_buffer.data();
+        }
 
         if (format.minimum_length > format_size) {
             if (format.alignment == ST::align_left) {
-                output.append(out_buffer, format_size);
+                output.append(out_text, format_size);
                 output.append_char(pad, format.minimum_length - format_size);
             } else {
                 output.append_char(pad, format.minimum_length - format_size);
-                output.append(out_buffer, format_size);
+                output.append(out_text, format_size);
             }
         } else {
-            output.append(out_buffer, format_size);
+            output.append(out_text, format_size);
         }
     }
 
